@@ -50,6 +50,10 @@ def run(ctx, chk):
     if not m.ok:
         return
     where0 = m.dispatch.where(0)
+    # every outcome results in a publication whatever the log level: nothing evaluated as an argument of a log macro in the
+    # writer thread's code can panic (the record would never be published) or does part of the work
+    if not getattr(chk, '_nested', False):
+        common.log_hazard_obligations(fb, chk, 'C08.G', [m.dispatch], 'the segment-writing thread')
     bound_f, asof_f, drift_f = m.field_of.get(2), m.field_of.get(0), m.field_of.get(3)
     if not (bound_f and asof_f and drift_f):
         # a record component that is not a plain read of one held field: say which one and what it is instead
